@@ -36,6 +36,11 @@
 // target's content is judged message by message (order, once, timestamps,
 // @setDataFrame on metadata) for RTMP and RTSP publishers.
 //
+// Audit-2 follow-up: push sessions also attach MID-STREAM (answer held until the
+// early part of the content is out, refusal then retry, hang-up of an
+// established target then re-attach): prologue + cached GOP + continuation are
+// judged exactly; an undecodable HTTP-API answer is a violation.
+//
 // Deliberately NOT asserted: wall-clock spacing of retries; budgets other than
 // {0, 1..3, -1}; sub-tick precision of the auto-stop window (presence is
 // sampled at ticks - the only clock the rules have - and a stream that never
@@ -69,7 +74,6 @@ import (
 	"verif/harness/inproc"
 	"verif/harness/lalclient"
 	"verif/harness/memconn"
-	"verif/harness/stub"
 	"verif/ref/rtmpref"
 	"verif/ref/rtpref"
 	"verif/ref/rtspref"
@@ -200,8 +204,8 @@ func responsive() bool {
 	return true
 }
 
-func acceptPatient(st *stub.RtmpStub, p *patience) *stub.Conn {
-	var c *stub.Conn
+func acceptPatient(st *RtmpStub, p *patience) *Conn {
+	var c *Conn
 	patient(p, func() bool { c = st.TryAccept(); return c != nil })
 	return c
 }
@@ -222,6 +226,12 @@ func closedPatient(c interface{ WaitPeerClose(time.Duration) bool }, p *patience
 type Target struct {
 	Refuse int  `json:"refuse,omitempty"` // attempts closed by the target before it accepts one
 	Hold   bool `json:"hold,omitempty"`   // the answer to publish is held back until the publisher has left
+	// HoldMid: the answer to publish is held back until the publisher has sent the early part of its stream: the session
+	// attaches mid-stream
+	HoldMid bool `json:"hold_mid,omitempty"`
+	// DropAfter: once established and the early part sent, the target closes the connection; lal must re-attach on a
+	// later tick
+	DropAfter bool `json:"drop_after,omitempty"`
 }
 
 type PubSpec struct {
@@ -241,6 +251,11 @@ type PubSpec struct {
 	ContentSeed uint32 `json:"content_seed,omitempty"`
 	MetaSdf     bool   `json:"meta_sdf,omitempty"`
 	MetaAt      int    `json:"meta_at,omitempty"` // 0 = no second metadata; k = before frame k
+	// Early: frames 0..Early-1 (and what precedes frame Early) are published BEFORE held-mid / refused / dropped targets
+	// get their session: those sessions attach mid-stream and must be served lal's cached GOP first.  KeyAt > 0 makes
+	// frame KeyAt a second video key frame (a second GOP).
+	Early int `json:"early,omitempty"`
+	KeyAt int `json:"key_at,omitempty"`
 }
 
 type PushCase struct {
@@ -274,6 +289,11 @@ func genPushCase(t *rapid.T) PushCase {
 		tg := Target{Refuse: rapid.SampledFrom([]int{0, 0, 0, 1, 1, 2}).Draw(t, "refuse")}
 		if tg.Refuse == 0 && rapid.IntRange(0, 3).Draw(t, "hold") == 0 {
 			tg.Hold = true
+		} else if tg.Refuse == 0 && rapid.IntRange(0, 2).Draw(t, "holdMid") == 0 {
+			tg.HoldMid = true
+		}
+		if !tg.Hold && rapid.IntRange(0, 3).Draw(t, "drop") == 0 {
+			tg.DropAfter = true
 		}
 		c.Targets = append(c.Targets, tg)
 	}
@@ -293,6 +313,12 @@ func genPushCase(t *rapid.T) PushCase {
 			p.MetaSdf = rapid.Bool().Draw(t, "metaSdf")
 			if rapid.Bool().Draw(t, "meta2") {
 				p.MetaAt = rapid.IntRange(1, p.Frames-1).Draw(t, "metaAt")
+			}
+			if rapid.IntRange(0, 3).Draw(t, "earlyClass") > 0 {
+				p.Early = rapid.IntRange(1, p.Frames-1).Draw(t, "early")
+			}
+			if rapid.Bool().Draw(t, "key2") {
+				p.KeyAt = rapid.IntRange(1, p.Frames-1).Draw(t, "keyAt")
 			}
 		}
 		if i+1 < np && rapid.Bool().Draw(t, "handOver") {
@@ -329,13 +355,15 @@ func params(seed uint32, n int) string {
 
 type pushTarget struct {
 	spec        Target
-	st          *stub.RtmpStub
+	st          *RtmpStub
 	refuseLeft  int
-	live        *stub.Conn // the session that is being set up or is established
+	live        *Conn // the session that is being set up or is established
 	established bool
 	held        bool
-	expected    int // connections the rules demand so far
-	allow       int // retries a first-round tick of the harness may have caused and nobody has consumed yet
+	expected    int  // connections the rules demand so far
+	allow       int  // retries a first-round tick of the harness may have caused and nobody has consumed yet
+	mid         bool // the publish answer is held until the early part of the stream has been published
+	early       bool // the session was attached before the early part of the stream was published
 }
 
 type pushWorld struct {
@@ -360,7 +388,7 @@ func (w *pushWorld) doTick() {
 }
 
 // serve performs the target side of one accepted attempt up to the publish command and checks the command.
-func (w *pushWorld) serve(ti int, t *pushTarget, c *stub.Conn, wantName string, pi int) *pbt.Violation {
+func (w *pushWorld) serve(ti int, t *pushTarget, c *Conn, wantName string, pi int) *pbt.Violation {
 	if err := c.Handshake(); err != nil {
 		if v := w.s.PanicViolation(); v != nil {
 			return v
@@ -403,7 +431,7 @@ func firstDiff(a, b string) int {
 }
 
 // incoming handles a connection that arrived at target t while a publisher is accepted.
-func (w *pushWorld) incoming(ti int, t *pushTarget, c *stub.Conn, wantName string, pi int) *pbt.Violation {
+func (w *pushWorld) incoming(ti int, t *pushTarget, c *Conn, wantName string, pi int) *pbt.Violation {
 	if t.live != nil {
 		return pbt.V("push/duplicate-session", "publisher %d, target %d: a second push connection arrived while the first session is %s", pi, ti, map[bool]string{true: "established", false: "being set up"}[t.established])
 	}
@@ -422,6 +450,10 @@ func (w *pushWorld) incoming(ti int, t *pushTarget, c *stub.Conn, wantName strin
 	t.live = c
 	if t.spec.Hold && !t.held {
 		t.held = true // answered after the publisher has left
+		return nil
+	}
+	if t.spec.HoldMid && !t.held {
+		t.held, t.mid = true, true // answered once the early part of the stream has been published
 		return nil
 	}
 	if err := c.AcceptPublish(); err != nil {
@@ -497,7 +529,7 @@ func ensureSdf(p []byte) []byte {
 
 // rtmpContent: what an RTMP publisher sends. pre goes out right after the publish command (lal caches it), seq once every
 // target is established; the filler only flushes lal's 4 KiB push write buffer and is not judged.
-func rtmpContent(ps PubSpec) (pre, seq []pmsg, filler pmsg) {
+func rtmpContent(ps PubSpec) (pre, seq []pmsg, filler pmsg, nEarly int) {
 	_, sps, pps := gen.ParamSets("avc", 0)
 	meta := func(v int, sdf bool) []byte {
 		b := gen.MetaBody(v)
@@ -514,11 +546,14 @@ func rtmpContent(ps PubSpec) (pre, seq []pmsg, filler pmsg) {
 	gaps := gen.Bytes(ps.ContentSeed, ps.Frames+1)
 	ts := uint32(10 + ps.ContentSeed%50)
 	for i := 0; i < ps.Frames; i++ {
+		if i == ps.Early {
+			nEarly = len(seq) // messages that precede frame Early
+		}
 		if ps.MetaAt == i && i > 0 {
 			seq = append(seq, pmsg{gen.TypeData, ts, meta(1, !ps.MetaSdf)})
 		}
 		switch {
-		case i == 0:
+		case i == 0 || i == ps.KeyAt:
 			nal := gen.NalSpec{Hdr: []byte{0x65}, Len: 40, Seed: ps.ContentSeed + uint32(i), Serial: uint32(i)}.Bytes()
 			seq = append(seq, pmsg{gen.TypeVideo, ts, append([]byte{0x17, 1, 0, 0, 0}, rtpref.AVCC([][]byte{nal})...)})
 		case i%2 == 1:
@@ -531,6 +566,31 @@ func rtmpContent(ps PubSpec) (pre, seq []pmsg, filler pmsg) {
 	}
 	filler = pmsg{gen.TypeAudio, ts, append([]byte{0xAF, 1}, gen.Bytes(17, 5000)...)}
 	return
+}
+
+// midExpectation: what a push session that attaches after `early` has been published (and before rest) must receive:
+// lal's prologue for a fresh session - the metadata in force, the sequence headers in force - then the cached GOP (with
+// rtmp.gop_num = 1: everything since the last video key frame, metadata excluded), then the live continuation.
+func midExpectation(pre, early, rest []pmsg) []pmsg {
+	meta := pre[0]
+	lastKey := -1
+	for i, m := range early {
+		if m.typ == gen.TypeData {
+			meta = m
+		}
+		if m.typ == gen.TypeVideo && len(m.payload) > 1 && m.payload[0] == 0x17 && m.payload[1] == 1 {
+			lastKey = i
+		}
+	}
+	exp := []pmsg{meta, pre[1], pre[2]}
+	if lastKey >= 0 {
+		for _, m := range early[lastKey:] {
+			if m.typ != gen.TypeData {
+				exp = append(exp, m)
+			}
+		}
+	}
+	return append(exp, rest...)
 }
 
 func show(m pmsg) string {
@@ -643,7 +703,7 @@ func runPush0(c PushCase) *pbt.Violation {
 	w := &pushWorld{name: "c17push"}
 	var addrs []string
 	for _, ts := range c.Targets {
-		st, err := stub.NewRtmpStub()
+		st, err := NewRtmpStub()
 		if err != nil {
 			lalclient.Harness("stub listen: %v", err)
 		}
@@ -667,6 +727,7 @@ func runPush0(c PushCase) *pbt.Violation {
 		var rc *rtspref.Client
 		var pre, seq []pmsg
 		var fill pmsg
+		nEarly := 0
 		for _, t := range w.targets {
 			t.refuseLeft = t.spec.Refuse
 		}
@@ -686,7 +747,7 @@ func runPush0(c PushCase) *pbt.Violation {
 				}
 				return pbt.V("push/publisher-refused", "publisher %d (rtmp, %d parameter bytes) was refused although the stream has no input: %v", pi, ps.ParamLen, pub.Err)
 			}
-			pre, seq, fill = rtmpContent(ps)
+			pre, seq, fill, nEarly = rtmpContent(ps)
 			for _, m := range pre {
 				_ = pub.Send(m.typ, m.ts, m.payload, 0)
 			}
@@ -714,7 +775,7 @@ func runPush0(c PushCase) *pbt.Violation {
 				continue
 			}
 			pt := newPatience(0)
-			var cn *stub.Conn
+			var cn *Conn
 			for cn == nil {
 				if cn = t.st.TryAccept(); cn != nil {
 					break
@@ -790,11 +851,54 @@ func runPush0(c PushCase) *pbt.Violation {
 			for _, t := range w.targets {
 				if t.established && t.live != nil && t.live.PeerClosed() {
 					t.live.Close()
-					t.live, t.established = nil, false
+					t.live, t.established, t.early = nil, false, false
 					any = true
 				}
 			}
 			return any
+		}
+		// ---- the early part of the stream: published while only the targets answered so far are attached ------------
+		if ps.LeaveAt == 0 {
+			nEst := 0
+			for _, t := range w.targets {
+				if t.established {
+					nEst++
+				}
+			}
+			if g := s.SM.GetGroup("", w.name); g != nil {
+				pt := newPatience(0)
+				if !patient(pt, func() bool { return g.OutSessionNum() == nEst }) {
+					return pt.verdict(pbt.V("push/session-count-differs", "publisher %d: %d of %d targets answered publish in the first round, but %v later lal counts %d push sessions on the stream", pi, nEst, len(w.targets), pt.waited(), g.OutSessionNum()))
+				}
+			}
+			for _, t := range w.targets {
+				t.early = t.established
+			}
+			if pub != nil {
+				for _, m := range seq[:nEarly] {
+					if err := pub.Send(m.typ, m.ts, m.payload, 0); err != nil {
+						return pbt.V("push/publisher-disconnected", "publisher %d was disconnected while pushing: %v", pi, err)
+					}
+				}
+				pub.WaitIdle()
+			}
+			for _, t := range w.targets {
+				switch {
+				case t.mid && !t.established && t.live != nil:
+					// the target answers now: the session attaches mid-stream
+					if err := t.live.AcceptPublish(); err != nil {
+						t.live.Close()
+						t.live = nil
+						continue
+					}
+					t.established = true
+					go t.live.CollectMedia()
+				case t.spec.DropAfter && t.established && pub != nil:
+					// the target hangs up mid-stream: lal has to notice and dial again on a later tick
+					t.live.Close()
+					t.live, t.established, t.early = nil, false, false
+				}
+			}
 		}
 		for ps.LeaveAt == 0 {
 			reap()
@@ -817,7 +921,7 @@ func runPush0(c PushCase) *pbt.Violation {
 				if got {
 					pt = newPatience(0)
 				} else if pt.over() {
-					return pt.verdict(pbt.V("push/failed-target-not-retried", "publisher %d: targets %v refused their attempt, the harness ticked the group for %v (%d ticks) but no new attempt arrived", pi, w.pending(), pt.waited(), w.tick))
+					return pt.verdict(pbt.V("push/failed-target-not-retried", "publisher %d: targets %v refused their attempt or hung up, the harness ticked the group for %v (%d ticks) but no new attempt arrived", pi, w.pending(), pt.waited(), w.tick))
 				}
 			}
 			for i := 0; i < ps.Ticks; i++ {
@@ -852,17 +956,20 @@ func runPush0(c PushCase) *pbt.Violation {
 			// ---- content: every established target receives what the publisher sends, in order, each message once,
 			// with its timestamp, metadata carrying the @setDataFrame prefix --------------------------------------
 			if pub != nil {
-				for _, m := range append(append([]pmsg{}, seq...), fill) {
+				for _, m := range append(append([]pmsg{}, seq[nEarly:]...), fill) {
 					if err := pub.Send(m.typ, m.ts, m.payload, 0); err != nil {
 						return pbt.V("push/publisher-disconnected", "publisher %d was disconnected while pushing: %v", pi, err)
 					}
 				}
 				pub.WaitIdle()
-				exp := append(append([]pmsg{}, pre...), seq...)
 				lastP := seq[len(seq)-1].payload
 				for ti, t := range w.targets {
 					if !t.established {
 						continue
+					}
+					exp := append(append([]pmsg{}, pre...), seq...)
+					if !t.early {
+						exp = midExpectation(pre, seq[:nEarly], seq[nEarly:])
 					}
 					pt = newPatience(0)
 					if !patient(pt, func() bool { return hasMarker(t.live.MediaSnapshot(), lastP) >= 0 }) {
@@ -963,7 +1070,7 @@ func runPush0(c PushCase) *pbt.Violation {
 				}
 			}
 			t.live.Close()
-			t.live, t.established, t.held = nil, false, false
+			t.live, t.established, t.held, t.mid, t.early = nil, false, false, false, false
 		}
 		if v := s.PanicViolation(); v != nil {
 			return v
@@ -1030,6 +1137,12 @@ func classifyPush(c PushCase) (bool, []string) {
 		if t.Hold {
 			labels = append(labels, "target-answers-after-publisher-left")
 		}
+		if t.HoldMid {
+			labels = append(labels, "target-answers-mid-stream")
+		}
+		if t.DropAfter {
+			labels = append(labels, "target-hangs-up-mid-stream")
+		}
 	}
 	anyHold := false
 	for _, t := range c.Targets {
@@ -1040,6 +1153,22 @@ func classifyPush(c PushCase) (bool, []string) {
 	}
 	for _, p := range c.Pubs {
 		labels = append(labels, "pub:"+p.Kind)
+		if p.Kind == "rtmp" && p.LeaveAt == 0 {
+			midAttach := false
+			for _, t := range c.Targets {
+				midAttach = midAttach || t.HoldMid || t.DropAfter || t.Refuse > 0
+			}
+			switch {
+			case p.Early > 0 && midAttach && p.KeyAt > 0 && p.KeyAt < p.Early:
+				labels = append(labels, "mid-stream-attach:second-gop-cached")
+				nt = true
+			case p.Early > 0 && midAttach:
+				labels = append(labels, "mid-stream-attach:first-gop-cached")
+				nt = true
+			case midAttach:
+				labels = append(labels, "late-attach:empty-cache")
+			}
+		}
 		if p.Kind == "rtmp" {
 			labels = append(labels, "params:"+paramClass(p.ParamLen))
 			if p.ParamLen > 200 {
@@ -1228,6 +1357,7 @@ type apiCaller interface {
 	start(req base.ApiCtrlStartRelayPullReq) (int, string)
 	stop(name string) (int, string)
 	kick(name, id string) int
+	body() string // the undecodable answer, if a call returned apiUndecodable
 }
 
 type directAPI struct{ s *inproc.Server }
@@ -1257,9 +1387,13 @@ func (d directAPI) kick(name, id string) (code int) {
 }
 
 type httpAPI struct {
-	base string
-	cl   *http.Client
+	base     string
+	cl       *http.Client
+	lastBody string
 }
+
+func (h *httpAPI) body() string { return h.lastBody }
+func (directAPI) body() string  { return "" }
 
 func newHTTPAPI(s *inproc.Server) *httpAPI {
 	for try := 0; try < 20; try++ {
@@ -1280,7 +1414,7 @@ func newHTTPAPI(s *inproc.Server) *httpAPI {
 	return nil
 }
 
-func (h *httpAPI) do(method, path string, body interface{}, out interface{}) bool {
+func (h *httpAPI) do(method, path string, body interface{}, out interface{}) int {
 	var rd io.Reader
 	if body != nil {
 		b, _ := json.Marshal(body)
@@ -1292,16 +1426,26 @@ func (h *httpAPI) do(method, path string, body interface{}, out interface{}) boo
 	}
 	resp, err := h.cl.Do(req)
 	if err != nil {
-		return false
+		return apiUnreachable // no answer at all: transport trouble, the case is abandoned
 	}
 	defer resp.Body.Close()
-	b, _ := io.ReadAll(resp.Body)
-	return json.Unmarshal(b, out) == nil
+	b, rerr := io.ReadAll(resp.Body)
+	if rerr != nil {
+		return apiUnreachable
+	}
+	if json.Unmarshal(b, out) != nil {
+		h.lastBody = string(b)
+		return apiUndecodable // lal answered, but not with the JSON document the API promises
+	}
+	return 0
 }
 
-// apiUnreachable is the code the HTTP variant reports when the request did not get an answer it could decode
-// (transport trouble on a loaded machine): the case is abandoned.
-const apiUnreachable = -2
+// apiUnreachable: the request got no answer (transport trouble on a loaded machine): the case is abandoned.
+// apiUndecodable: lal answered with something that is not the promised JSON document: a violation.
+const (
+	apiUnreachable = -2
+	apiUndecodable = -3
+)
 
 func (h *httpAPI) start(req base.ApiCtrlStartRelayPullReq) (int, string) {
 	// fields equal to the documented defaults are omitted, so the handler's defaults are what takes effect
@@ -1313,22 +1457,22 @@ func (h *httpAPI) start(req base.ApiCtrlStartRelayPullReq) (int, string) {
 		m["auto_stop_pull_after_no_out_ms"] = req.AutoStopPullAfterNoOutMs
 	}
 	var r base.ApiCtrlStartRelayPullResp
-	if !h.do("POST", "/api/ctrl/start_relay_pull", m, &r) {
-		return apiUnreachable, ""
+	if c := h.do("POST", "/api/ctrl/start_relay_pull", m, &r); c != 0 {
+		return c, ""
 	}
 	return r.ErrorCode, r.Data.SessionId
 }
 func (h *httpAPI) stop(name string) (int, string) {
 	var r base.ApiCtrlStopRelayPullResp
-	if !h.do("GET", "/api/ctrl/stop_relay_pull?stream_name="+url.QueryEscape(name), nil, &r) {
-		return apiUnreachable, ""
+	if c := h.do("GET", "/api/ctrl/stop_relay_pull?stream_name="+url.QueryEscape(name), nil, &r); c != 0 {
+		return c, ""
 	}
 	return r.ErrorCode, r.Data.SessionId
 }
 func (h *httpAPI) kick(name, id string) int {
 	var r base.ApiCtrlKickSessionResp
-	if !h.do("POST", "/api/ctrl/kick_session", map[string]string{"stream_name": name, "session_id": id}, &r) {
-		return apiUnreachable
+	if c := h.do("POST", "/api/ctrl/kick_session", map[string]string{"stream_name": name, "session_id": id}, &r); c != 0 {
+		return c
 	}
 	return r.ErrorCode
 }
@@ -1337,7 +1481,7 @@ func (h *httpAPI) kick(name, id string) int {
 
 type attempt struct {
 	n       int        // ordinal
-	conn    *stub.Conn // rtmp origin side
+	conn    *Conn      // rtmp origin side
 	rc      *rtspOConn // rtsp origin side
 	started time.Time  // taken before the triggering call: lal's timeout cannot expire before started+timeout
 	outcome int
@@ -1389,7 +1533,7 @@ func pubKind(sel int, static, exists bool) string {
 type pullWorld struct {
 	c       PullCase
 	s       *inproc.Server
-	origin  *stub.RtmpStub
+	origin  *RtmpStub
 	rorigin *rtspOrigin
 	api     apiCaller
 	name    string
@@ -1913,6 +2057,9 @@ func (w *pullWorld) doAct(a Act) *pbt.Violation {
 			w.abandon("http-api-unreachable")
 			return nil
 		}
+		if code == apiUndecodable {
+			return pbt.V("api/http-answer-undecodable", "%s: the HTTP-API answered with something that is not the JSON document it promises: %q", w.step, clip(w.api.body()))
+		}
 		w.created(t0, t1)
 		w.m.apiEnabled = true
 		w.m.budget, w.m.autoStop = w.c.Budget, w.c.AutoStop
@@ -1941,6 +2088,9 @@ func (w *pullWorld) doAct(a Act) *pbt.Violation {
 		if code == apiUnreachable {
 			w.abandon("http-api-unreachable")
 			return nil
+		}
+		if code == apiUndecodable {
+			return pbt.V("api/http-answer-undecodable", "%s: the HTTP-API answered with something that is not the JSON document it promises: %q", w.step, clip(w.api.body()))
 		}
 		if !w.m.exists {
 			if code != base.ErrorCodeGroupNotFound {
@@ -1976,6 +2126,9 @@ func (w *pullWorld) doAct(a Act) *pbt.Violation {
 		if code == apiUnreachable {
 			w.abandon("http-api-unreachable")
 			return nil
+		}
+		if code == apiUndecodable {
+			return pbt.V("api/http-answer-undecodable", "%s: the HTTP-API answered with something that is not the JSON document it promises: %q", w.step, clip(w.api.body()))
 		}
 		if !w.m.exists {
 			if code != base.ErrorCodeGroupNotFound {
@@ -2051,7 +2204,7 @@ func runPull(c PullCase) *pbt.Violation {
 }
 
 func runPull0(c PullCase) *pbt.Violation {
-	origin, err := stub.NewRtmpStub()
+	origin, err := NewRtmpStub()
 	if err != nil {
 		lalclient.Harness("stub listen: %v", err)
 	}
